@@ -149,6 +149,7 @@ CHECKS["C18"] = _e1_entry("Finalizers guard teardown.", "c18-rollout-finalizer",
     "Monitors: the write that removes the Rollout finalizer (or the object) must find no residue (no canary share / canary reference, no canary Service / Ingress, stable Service un-pinned, workload without in-progressing / control-info, BatchRelease gone, no canary Deployment still holding the BatchRelease's protection finalizer); the write that removes the BatchRelease's own finalizer must find the workload released and no canary Deployment still holding that finalizer; fair completion must end with the object gone. TrafficRouting objects are not part of the closed loop; their finalizer is decided by the component check c18-trafficrouting-finalizer.",
     "the Rollout was deleted after step >= 1.")
 CHECKS["C18"]["level"] = "fault_enumeration"
+CHECKS["C18"]["engine"] = "E1+E2"
 CHECKS["C18"]["subchecks"].append({"name": "c18-trafficrouting-finalizer", "pkg": "p18t", "test": "TestC18TrafficRoutingFinalizer", "quick": rp(16000, 8, timeout=600, shrinktime="30s"), "thorough": rp(320000, 16, timeout=3000, shrinktime="120s")})
 CHECKS["C18"]["rule"] += (" TrafficRouting (c18-trafficrouting-finalizer, component level): the real TrafficRoutingReconciler on the controller-runtime fake client (objects with finalizers stay until the last one is removed), "
                           "grace 0 / 1 / 3 s with the grace package's clock ticked through the verif hook; generated histories of reconcile / tick / a Rollout starts or stops using it (progressing finalizer) / delete / 'the N-th API call from now fails'; "
@@ -207,7 +208,7 @@ CHECKS["C01"]["engine"] = "E3+E2+E1"
 
 
 CHECKS["C19"] = {
-    "level": "exploration", "engine": "E1",
+    "level": "exploration", "engine": "E1+E2",
     "technique": "stateful property-based testing (rapid) of several rollouts interleaved on one controller process (ownership + differential oracle) and a 4-worker concurrent run under the Go race detector",
     "level_text": ("Isolation decided by generated search. (a) Deterministic interleaving: 2-3 generated rollouts (same and different namespaces, names that are prefixes of each other "
                    "demo / demo-a, same name in two namespaces, hence identically named Services / Ingresses / routes across namespaces) are driven on ONE simulated cluster and ONE set of "
